@@ -38,6 +38,7 @@ type protoEvent struct {
 }
 
 type protoMon struct {
+	endedBySilence bool
 	prop       string
 	role       string
 	state      byte // 'W' waiting for a Logon, 'L' logged on, 'O' logout sent by us, awaiting answer
@@ -122,6 +123,10 @@ func (m *protoMon) step(w *world, ev event, outs []outMsg) (string, string) {
 		m.loggedOut = true
 	}
 	if w.runDone || w.ctxDone {
+		if m.prop == "C16" && (pe.Local == "silence" || m.endedBySilence) {
+			m.endedBySilence = true // the silent-peer rule (C09) ended the session: nothing left to judge
+			return "", ""
+		}
 		if m.prop == "C16" {
 			return "session-stopped-by:" + evClass(pe), fmt.Sprintf("handler loop returned=%v (err %v) session context done=%v", w.runDone, w.runErr, w.ctxDone)
 		}
@@ -393,6 +398,17 @@ func protoAlphabet(role string, which string) []*protoEvent {
 		add(inEv("TestRequest(seq-missing)", "1", true, false, "", false, func(w *world) []byte { return del34(w.msg("1", "112=T5")) }))
 		add(inEv("ResendRequest(seq-missing)", "2", true, false, "", false, func(w *world) []byte { return del34(w.msg("2", "7=1", "16=0")) }))
 		add(inEv("Logout(seq-missing)", "5", true, false, "", false, func(w *world) []byte { return del34(w.msg("5")) }))
+		// a field whose tag merely ends in 34, and a value that mentions 34=, ahead of the genuine MsgSeqNum: the
+		// Reject still refers to the genuine number
+		add(inEv("Heartbeat(5034=..-before-34)", "0", true, false, "", true, func(w *world) []byte { return withDecoyAfterMsgType(w.msg("0"), "5034=desk-7") }))
+		add(inEv("TestRequest(5034-before-34,bad-checksum)", "1", false, false, "", true, func(w *world) []byte {
+			return badChecksum(withDecoyAfterMsgType(w.msg("1", "112=T6"), "5034=desk-7"))
+		}))
+		add(inEv("ResendRequest(text-34=-before-34,begin-not-numeric)", "2", false, false, "", true, func(w *world) []byte {
+			return withDecoyAfterMsgType(w.msg("2", "7=x", "16=0"), "50=see 34=999")
+		}))
+		// the peer falls silent until the session probes it: the session's own TestRequest is outstanding
+		add(&protoEvent{Local: "silence", event: event{Name: "Silence(32 s)", Do: func(w *world) { sleepFor(32) }}})
 		add(inEv("ResendRequest(begin-empty)", "2", false, false, "", true, func(w *world) []byte { return w.msg("2", "7=", "16=0") }))
 		add(inEv("ResendRequest(begin-not-numeric)", "2", false, false, "", true, func(w *world) []byte { return w.msg("2", "7=x", "16=0") }))
 		add(inEv("Logout(bad-checksum)", "5", false, false, "", true, func(w *world) []byte { return badChecksum(w.msg("5")) }))
